@@ -133,6 +133,20 @@ CHECKS = {
         technique="exhaustive enumeration + property-based testing against an alignment reference model",
         ref="DESIGN.md section 4 C09",
     ),
+    "C06": dict(
+        level="exploration",
+        text="Permutation twins: exhaustive over all permutations of 2-4 labels / 3 megacomplexes / 3 datasets for the built-in megacomplex types x {no, Gaussian, multi-Gaussian, dispersed} IRF and random beyond (K-matrix entry order, dict orders, splits into single-label megacomplexes): matrix columns compared BY LABEL, optimize() results (cost, one optimisation step, every labelled result array) compared by label, internal consistency of reported spectra / profiles with clp and matrix columns of the same label; composition: each per-index column equals the scaled sum of the megacomplexes' own columns of that label (2-D/3-D mixes in either order).",
+        note="Only variable projection. Twin parameters compared after one optimisation step with a conditioning-derived tolerance (scipy's forward-difference Jacobian amplifies rounding between twins).",
+        technique="metamorphic (permutation) property-based testing + exhaustive enumeration of small permutation groups",
+        ref="DESIGN.md section 4 C06",
+    ),
+    "C07": dict(
+        level="exploration",
+        text="Hypothesis-generated oscillation / PFID / artifact / shape parameters (frequencies 0-2000 cm-1, rates of either sign where supported, widths 1e-3..5, shifts, dispersion, 1-3 oscillations, artifact orders 1-3, skewness down to 1e-9, inverted/scaled axes) against 50-digit mpmath closed forms (self-checked against quadrature of the defining convolutions); one proportionality constant per megacomplex type estimated on a canonical case and required everywhere; the effective IRF position is compared with the decay model of the same dataset.",
+        note="Errors are normalised by the true column scale; beyond 5 sigma the code truncates to zero (5e-6 of the scale allowed there). Frequency folding excluded by construction.",
+        technique="property-based testing against high-precision (mpmath) reference formulae",
+        ref="DESIGN.md section 4 C07",
+    ),
 }
 
 PENDING_REASON = "check not built yet in this session (planned, see DESIGN.md section 4); nothing is claimed for it"
